@@ -32,7 +32,7 @@ VARIABLES W,       \* input bytes of the run               } fixed during a run;
           fr,      \* call stack: frames of rule invocations, innermost last
           cur,     \* cursor (offset)
           ret,     \* result of the invocation that just returned: 1 / 0, -1 none
-          exc,     \* exception in flight: [who, at, cls] or NoExc
+          exc,     \* exception in flight: [who, at, cls, m, n] or NoExc
           q,       \* events emitted and not yet taken by the observer
           done     \* the run is over: 1 / 0 / 2 (result), -1 while running
 
@@ -40,7 +40,8 @@ mvars == <<fr, cur, ret, exc, q, done>>
 
 D == INSTANCE PegDen WITH Nodes <- Nodes, W <- W
 
-NoExc == [who |-> 0, at |-> 0, cls |-> 0]
+\* m = 1: the message names raise< T >'s T (Control< T >::raise), n = 1: thrown by raise_nested
+NoExc == [who |-> 0, at |-> 0, cls |-> 0, m |-> 0, n |-> 0]
 N == Len(W)
 \* the control family is a property of the invocation: control< C, R > switches it for a sub-tree
 FullVis(f) == f.cf \in {3, 4}
@@ -172,13 +173,13 @@ Body ==
         [] op = "must" ->
              IF f.pc = "body" THEN CallKid(f, 1, f.A, 0, "k")
              ELSE IF ret = 1 THEN cur' = cur /\ BodyDone(f, 1)
-             ELSE /\ exc' = [who |-> ks[1], at |-> cur, cls |-> 1]
+             ELSE /\ exc' = [who |-> ks[1], at |-> cur, cls |-> 1, m |-> 0, n |-> 0]
                   /\ q' = <<EvHook("ra", ks[1], f.cf, cur)>>
                   /\ fr' = SetTop([f EXCEPT !.pc = "thrown"])
                   /\ UNCHANGED <<cur, ret, done>>
         \* internal/raise.hpp: Control< T >::raise
         [] op = "raise" ->
-             /\ exc' = [who |-> f.n, at |-> cur, cls |-> 1]
+             /\ exc' = [who |-> f.n, at |-> cur, cls |-> 1, m |-> 1, n |-> 0]
              /\ q' = <<EvHook("ra", Nodes[f.n].ip[1], f.cf, cur)>>
              /\ fr' = SetTop([f EXCEPT !.pc = "thrown"])
              /\ UNCHANGED <<cur, ret, done>>
@@ -327,7 +328,7 @@ After ==
    /\ exc = NoExc /\ done = -1 /\ q = <<>> /\ f.pc = "after"
    /\ IF throws
       THEN \* the action throws: parse_error at the begin of the match (kind 6) or a foreign exception (kinds 5, 7)
-           /\ exc' = [who |-> IF kind = 6 THEN D!XActParseError ELSE D!XActForeign, at |-> f.entry, cls |-> IF kind = 6 THEN 1 ELSE 3]
+           /\ exc' = [who |-> IF kind = 6 THEN D!XActParseError ELSE D!XActForeign, at |-> f.entry, cls |-> IF kind = 6 THEN 1 ELSE 3, m |-> 0, n |-> 0]
            /\ q' = actev
            \* the body has returned: the rule's own guard is gone, only match()'s guard (if any) is left to restore
            /\ fr' = SetTop([f EXCEPT !.pc = "thrown", !.sv = -1])
@@ -348,7 +349,7 @@ Unwind ==
    /\ exc # NoExc /\ done = -1 /\ q = <<>>
    /\ IF nests
       THEN \* catch( ... ) { Control< Rule >::raise_nested( in.position( m.inputerator() ), st... ); }  -- no hook is called for it
-           /\ exc' = [who |-> Nodes[f.n].ikids[1], at |-> f.sv, cls |-> 1]
+           /\ exc' = [who |-> Nodes[f.n].ikids[1], at |-> f.sv, cls |-> 1, m |-> 0, n |-> 1]
            /\ fr' = SetTop([f EXCEPT !.pc = "thrown"])
            /\ UNCHANGED <<cur, ret, q, done>>
       ELSE IF catches
